@@ -61,14 +61,14 @@ func lexErrClass(msg string) string {
 	return "other"
 }
 
-// collector is a reporter that records every error; lenient: keep going.
-type collector struct {
+// lexCollector is a reporter that records every error; lenient: keep going.
+type lexCollector struct {
 	lenient bool
 	errs    []lexErr
 	warns   int
 }
 
-func (c *collector) handler() *reporter.Handler {
+func (c *lexCollector) handler() *reporter.Handler {
 	return reporter.NewHandler(reporter.NewReporter(func(e reporter.ErrorWithPos) error {
 		p := e.GetPosition()
 		c.errs = append(c.errs, lexErr{lexErrClass(e.Unwrap().Error()), p.Offset, p.Line, p.Col})
@@ -79,14 +79,14 @@ func (c *collector) handler() *reporter.Handler {
 	}, func(reporter.ErrorWithPos) { c.warns++ }))
 }
 
-func joinOr(xs []string, sep string) string {
+func lexJoinOr(xs []string, sep string) string {
 	if len(xs) == 0 {
 		return "-"
 	}
 	return strings.Join(xs, sep)
 }
 
-func fmtTok(t parser.VerifTok) string {
+func lexFmtTok(t parser.VerifTok) string {
 	switch t.Kind {
 	case "e":
 		return "e"
@@ -104,31 +104,31 @@ func fmtTok(t parser.VerifTok) string {
 	return "?"
 }
 
-func fmtErrs(errs []lexErr) string {
+func lexFmtErrs(errs []lexErr) string {
 	var xs []string
 	for _, e := range errs {
 		xs = append(xs, fmt.Sprintf("%s@%d:%d:%d", e.cls, e.off, e.line, e.col))
 	}
-	return joinOr(xs, ",")
+	return lexJoinOr(xs, ",")
 }
 
-func fmtPairs(ps [][2]int, sep string) string {
+func lexFmtPairs(ps [][2]int, sep string) string {
 	var xs []string
 	for _, p := range ps {
 		xs = append(xs, fmt.Sprintf("%d%s%d", p[0], sep, p[1]))
 	}
-	return joinOr(xs, ",")
+	return lexJoinOr(xs, ",")
 }
 
-func fmtInts(ns []int) string {
+func lexFmtInts(ns []int) string {
 	var xs []string
 	for _, n := range ns {
 		xs = append(xs, strconv.Itoa(n))
 	}
-	return joinOr(xs, ",")
+	return lexJoinOr(xs, ",")
 }
 
-func catchPanic(ans *string) {
+func lexCatchPanic(ans *string) {
 	if r := recover(); r != nil {
 		*ans = "PANIC " + Canon(fmt.Sprint(r))
 	}
@@ -154,26 +154,26 @@ func (lexEngine) Name() string { return "lex" }
 func (lexEngine) Reset()       {}
 
 func lexAnswer(data []byte, lenient bool) (ans string) {
-	defer catchPanic(&ans)
-	c := &collector{lenient: lenient}
+	defer lexCatchPanic(&ans)
+	c := &lexCollector{lenient: lenient}
 	res := parser.VerifLex(data, c.handler())
 	var toks []string
 	for _, t := range res.Toks {
-		toks = append(toks, fmtTok(t))
+		toks = append(toks, lexFmtTok(t))
 	}
 	x := "noeof"
 	if res.EOF >= 0 {
 		x = fmt.Sprintf("eof%d", res.EOF)
 	}
-	return fmt.Sprintf("T=%s I=%s C=%s L=%s E=%s X=%s N=%d", joinOr(toks, ";"),
-		fmtPairs(res.Info.VerifItems(), "+"), fmtPairs(res.Info.VerifComments(), ">"),
-		fmtInts(res.Info.VerifLines()), fmtErrs(c.errs), x, res.Pos)
+	return fmt.Sprintf("T=%s I=%s C=%s L=%s E=%s X=%s N=%d", lexJoinOr(toks, ";"),
+		lexFmtPairs(res.Info.VerifItems(), "+"), lexFmtPairs(res.Info.VerifComments(), ">"),
+		lexFmtInts(res.Info.VerifLines()), lexFmtErrs(c.errs), x, res.Pos)
 }
 
-// astAnswer parses with the real parser (default reporter) and prints the AST the way the
+// lexAstAnswer parses with the real parser (default reporter) and prints the AST the way the
 // repository's round-trip test does, also recording which items the walk visits.
-func astAnswer(data []byte) (ans string) {
-	defer catchPanic(&ans)
+func lexAstAnswer(data []byte) (ans string) {
+	defer lexCatchPanic(&ans)
 	root, err := parser.Parse("f", bytes.NewReader(data), reporter.NewHandler(nil))
 	if err != nil {
 		return "rejected"
@@ -215,7 +215,7 @@ func astAnswer(data []byte) (ans string) {
 		},
 	})
 	_ = fi
-	return fmt.Sprintf("V=%s P=%s K=%s", joinOr(visit, ","), Hex(out), joinOr(vals, ";"))
+	return fmt.Sprintf("V=%s P=%s K=%s", lexJoinOr(visit, ","), Hex(out), lexJoinOr(vals, ";"))
 }
 
 func (lexEngine) Exec(op string) string {
@@ -228,7 +228,7 @@ func (lexEngine) Exec(op string) string {
 		}
 		return lexAnswer(UnHex(w[2]), lenient)
 	case len(w) == 2 && w[0] == "ast":
-		return astAnswer(UnHex(w[1]))
+		return lexAstAnswer(UnHex(w[1]))
 	}
 	return "bad-op"
 }
@@ -250,7 +250,7 @@ func (lexEngine) Class(op, ans string) string {
 	return c
 }
 
-func accepted(data []byte) bool {
+func lexAccepted(data []byte) bool {
 	ok := false
 	func() {
 		defer func() { _ = recover() }()
@@ -261,7 +261,7 @@ func accepted(data []byte) bool {
 }
 
 func (lexEngine) Gen(r *Rand, tier string) [][]string {
-	g := newSrcGen(r)
+	g := lexNewSrcGen(r)
 	var ops []string
 	add := func(o string) { ops = append(ops, o) }
 	// exhaustive: every byte string of length <= 1, and every 2-byte string over a boundary alphabet
@@ -291,10 +291,10 @@ func (lexEngine) Gen(r *Rand, tier string) [][]string {
 	}
 	rec(nil, n)
 	// directed comment-attribution shapes
-	for _, s := range commentShapes() {
+	for _, s := range lexCommentShapes() {
 		add("lex l " + Hex([]byte(s)))
 		add("lex s " + Hex([]byte(s)))
-		if accepted([]byte(s)) {
+		if lexAccepted([]byte(s)) {
 			add("ast " + Hex([]byte(s)))
 		}
 	}
@@ -304,7 +304,7 @@ func (lexEngine) Gen(r *Rand, tier string) [][]string {
 	}
 	for i := 0; i < cnt; i++ {
 		src := g.file()
-		if accepted(src) {
+		if lexAccepted(src) {
 			add("ast " + Hex(src))
 			add("lex s " + Hex(src))
 		} else {
@@ -317,7 +317,7 @@ func (lexEngine) Gen(r *Rand, tier string) [][]string {
 				mode = "s"
 			}
 			add("lex " + mode + " " + Hex(m))
-			if accepted(m) {
+			if lexAccepted(m) {
 				add("ast " + Hex(m))
 			}
 		}
@@ -325,10 +325,10 @@ func (lexEngine) Gen(r *Rand, tier string) [][]string {
 			add("lex l " + Hex(g.soup(1+r.Intn(40))))
 		}
 	}
-	return singleOpCases(ops)
+	return lexSingleOpCases(ops)
 }
 
-func singleOpCases(ops []string) [][]string {
+func lexSingleOpCases(ops []string) [][]string {
 	cases := make([][]string, 0, len(ops))
 	for _, o := range ops {
 		cases = append(cases, []string{o})
@@ -340,7 +340,7 @@ func singleOpCases(ops []string) [][]string {
 var lexAlphabet = []byte{'a', '_', '0', '1', '8', 'e', 'x', '.', '-', '+', '"', '\'', '\\', '/', '*',
 	'\n', ' ', '\t', ';', '=', '$', 0, 0x7f, 0xc3, 0xa9, 0xff}
 
-func commentShapes() []string {
+func lexCommentShapes() []string {
 	return []string{
 		"a // t\nb", "a /* t */\nb", "a /* t */ b", "a /* t\n */ b", "a /* t\n */\n b", "a // t\n// l\nb",
 		"a /* t */ /* u */ b", "a /* t */ // u\nb", "a\n// l\nb", "a\n/* l */ b", "// only", "/* only */",
@@ -353,11 +353,11 @@ func commentShapes() []string {
 
 // ---------------------------------------------------------------- source generator
 
-type srcGen struct{ r *Rand }
+type lexSrcGen struct{ r *Rand }
 
-func newSrcGen(r *Rand) *srcGen { return &srcGen{r} }
+func lexNewSrcGen(r *Rand) *lexSrcGen { return &lexSrcGen{r} }
 
-func (g *srcGen) ws() string {
+func (g *lexSrcGen) ws() string {
 	r := g.r
 	switch r.Intn(12) {
 	case 0:
@@ -386,14 +386,14 @@ func (g *srcGen) ws() string {
 	return " "
 }
 
-func (g *srcGen) sep() string {
+func (g *lexSrcGen) sep() string {
 	if g.r.Chance(1, 3) {
 		return ""
 	}
 	return g.ws()
 }
 
-func (g *srcGen) strLit() string {
+func (g *lexSrcGen) strLit() string {
 	r := g.r
 	q := Pick(r, []string{"\"", "'"})
 	var b strings.Builder
@@ -406,17 +406,17 @@ func (g *srcGen) strLit() string {
 	return b.String()
 }
 
-func (g *srcGen) numLit() string {
+func (g *lexSrcGen) numLit() string {
 	return Pick(g.r, []string{"0", "1", "42", "0x1F", "0XaB", "017", "1.5", ".5", "1e10", "1E-3", "2.5e+7", "0.0",
 		"18446744073709551615", "18446744073709551616", "1e400", "00", "1.", "0e0", "9999999999999999999999"})
 }
 
-func (g *srcGen) ident() string {
+func (g *lexSrcGen) ident() string {
 	return Pick(g.r, []string{"a", "Foo", "_b1", "x_y", "message1", "int32x", "É"[:0] + "q"})
 }
 
 // file returns a mostly well-formed proto source with arbitrary trivia between tokens.
-func (g *srcGen) file() []byte {
+func (g *lexSrcGen) file() []byte {
 	r := g.r
 	var toks []string
 	t := func(xs ...string) { toks = append(toks, xs...) }
@@ -460,7 +460,7 @@ func (g *srcGen) file() []byte {
 	for _, x := range toks {
 		b.WriteString(x)
 		w := g.sep()
-		if w == "" && needSpace(x) {
+		if w == "" && lexNeedSpace(x) {
 			w = " "
 		}
 		b.WriteString(w)
@@ -468,32 +468,32 @@ func (g *srcGen) file() []byte {
 	return []byte(b.String())
 }
 
-func needSpace(tok string) bool {
+func lexNeedSpace(tok string) bool {
 	c := tok[len(tok)-1]
 	return c == '_' || c == '.' || (c >= '0' && c <= '9') || (c >= 'a' && c <= 'z') || (c >= 'A' && c <= 'Z') || c == '-' || c == '+'
 }
 
-var soupPieces = []string{"a", "B", "_", "0", "9", "08", "0x", "0xg", "1e", "1e+", ".", "..", ".5", "-", "+", ";", "=", "{", "}", "(", "[", "<",
+var lexSoupPieces = []string{"a", "B", "_", "0", "9", "08", "0x", "0xg", "1e", "1e+", ".", "..", ".5", "-", "+", ";", "=", "{", "}", "(", "[", "<",
 	"\"", "'", "\\", "\\x", "\\u", "\\U", "\\0", "\\8", "\\400", "/", "//", "/*", "*/", "*", "\n", "\r", "\t", "\f", "\v", " ",
 	"\x00", "\x01", "\x7f", "$", "@", "é", "€", "😀", "\xc3", "\xa9", "\xff", "\xe2\x82", "\xed\xa0\x80", "\xef\xbb\xbf", "\xc0\x80",
 	"syntax", "message", "\"abc\"", "'x'", "1.5", "inf", "+4", "1f", "1_0", "e5"}
 
 // soup returns n random lexer-relevant pieces glued together.
-func (g *srcGen) soup(n int) []byte {
+func (g *lexSrcGen) soup(n int) []byte {
 	var b []byte
 	for i := 0; i < n; i++ {
-		b = append(b, Pick(g.r, soupPieces)...)
+		b = append(b, Pick(g.r, lexSoupPieces)...)
 	}
 	return b
 }
 
 // mutate applies 1-3 small edits (delete / insert piece / replace byte / truncate).
-func (g *srcGen) mutate(src []byte) []byte {
+func (g *lexSrcGen) mutate(src []byte) []byte {
 	r := g.r
 	b := append([]byte{}, src...)
 	for k, n := 0, 1+r.Intn(3); k < n; k++ {
 		if len(b) == 0 {
-			b = append(b, Pick(r, soupPieces)...)
+			b = append(b, Pick(r, lexSoupPieces)...)
 			continue
 		}
 		i := r.Intn(len(b))
@@ -501,7 +501,7 @@ func (g *srcGen) mutate(src []byte) []byte {
 		case 0:
 			b = append(b[:i], b[i+1:]...)
 		case 1:
-			p := Pick(r, soupPieces)
+			p := Pick(r, lexSoupPieces)
 			b = append(b[:i], append([]byte(p), b[i:]...)...)
 		case 2:
 			b[i] = Pick(r, lexAlphabet)
@@ -524,9 +524,9 @@ func init() { Register("lexpos", func() Engine { return lexposEngine{} }) }
 func (lexposEngine) Name() string { return "lexpos" }
 func (lexposEngine) Reset()       {}
 
-func posAnswer(data []byte, lenient bool) (ans string) {
-	defer catchPanic(&ans)
-	c := &collector{lenient: lenient}
+func lexPosAnswer(data []byte, lenient bool) (ans string) {
+	defer lexCatchPanic(&ans)
+	c := &lexCollector{lenient: lenient}
 	res := parser.VerifLex(data, c.handler())
 	fi := res.Info
 	var ps []string
@@ -544,7 +544,7 @@ func posAnswer(data []byte, lenient bool) (ans string) {
 		s, e := ii.Start(), ii.End()
 		ss = append(ss, fmt.Sprintf("%d:%d:%d-%d:%d:%d", s.Offset, s.Line, s.Col, e.Offset, e.Line, e.Col))
 	}
-	return fmt.Sprintf("P=%s S=%s E=%s", joinOr(ps, ","), joinOr(ss, ","), fmtErrs(c.errs))
+	return fmt.Sprintf("P=%s S=%s E=%s", lexJoinOr(ps, ","), lexJoinOr(ss, ","), lexFmtErrs(c.errs))
 }
 
 func (lexposEngine) Exec(op string) string {
@@ -554,7 +554,7 @@ func (lexposEngine) Exec(op string) string {
 		if !ok {
 			return "bad-op"
 		}
-		return posAnswer(UnHex(w[2]), lenient)
+		return lexPosAnswer(UnHex(w[2]), lenient)
 	}
 	return "bad-op"
 }
@@ -571,11 +571,11 @@ func (lexposEngine) Class(op, ans string) string {
 	return "pos:errors"
 }
 
-var posPieces = []string{"a", "bc", "\t", "\t\t", " ", "\n", "\r\n", "\n\n", "é", "€", "😀", "=", ";", "\"s\"", "\"é\t\"", "'\\t'",
+var lexPosPieces = []string{"a", "bc", "\t", "\t\t", " ", "\n", "\r\n", "\n\n", "é", "€", "😀", "=", ";", "\"s\"", "\"é\t\"", "'\\t'",
 	"// c\t é\n", "/* x\n\ty */", "/*\n*/", "1.5", "\r", "\f", "\v", "        ", "1234567", "\"\n", "$", "\xff", "\xc3", "\x80", "\\"}
 
 func (lexposEngine) Gen(r *Rand, tier string) [][]string {
-	g := newSrcGen(r)
+	g := lexNewSrcGen(r)
 	var ops []string
 	add := func(mode string, b []byte) { ops = append(ops, "pos "+mode+" "+Hex(b)) }
 	add("l", nil)
@@ -604,7 +604,7 @@ func (lexposEngine) Gen(r *Rand, tier string) [][]string {
 		add("l", []byte(strings.Repeat("é", k)+"\tb"))
 		add("l", []byte("x\n"+strings.Repeat(" ", k)+"\t\"s\"\t;"))
 	}
-	for _, s := range commentShapes() {
+	for _, s := range lexCommentShapes() {
 		add("l", []byte(s))
 		add("s", []byte(s))
 	}
@@ -619,7 +619,7 @@ func (lexposEngine) Gen(r *Rand, tier string) [][]string {
 			b = g.file()
 		case 1:
 			for j, m := 0, 1+r.Intn(14); j < m; j++ {
-				b = append(b, Pick(r, posPieces)...)
+				b = append(b, Pick(r, lexPosPieces)...)
 			}
 		case 2:
 			b = g.mutate(g.file())
@@ -630,38 +630,38 @@ func (lexposEngine) Gen(r *Rand, tier string) [][]string {
 		}
 		add(mode, b)
 	}
-	return singleOpCases(ops)
+	return lexSingleOpCases(ops)
 }
 
 // ---------------------------------------------------------------- engine "literal" (C14)
 
-type literalEngine struct{}
+type lexLiteralEngine struct{}
 
-func init() { Register("literal", func() Engine { return literalEngine{} }) }
+func init() { Register("literal", func() Engine { return lexLiteralEngine{} }) }
 
-func (literalEngine) Name() string { return "literal" }
-func (literalEngine) Reset()       {}
+func (lexLiteralEngine) Name() string { return "literal" }
+func (lexLiteralEngine) Reset()       {}
 
-// litAnswer lexes src alone (lenient reporter) and reports the token stream values and errors.
-func litAnswer(src []byte) (ans string) {
-	defer catchPanic(&ans)
-	c := &collector{lenient: true}
+// lexLitAnswer lexes src alone (lenient reporter) and reports the token stream values and errors.
+func lexLitAnswer(src []byte) (ans string) {
+	defer lexCatchPanic(&ans)
+	c := &lexCollector{lenient: true}
 	res := parser.VerifLex(src, c.handler())
 	var toks []string
 	for _, t := range res.Toks {
-		toks = append(toks, fmtTok(t))
+		toks = append(toks, lexFmtTok(t))
 	}
 	var es []string
 	for _, e := range c.errs {
 		es = append(es, e.cls)
 	}
-	return fmt.Sprintf("T=%s E=%s", joinOr(toks, ";"), joinOr(es, ","))
+	return fmt.Sprintf("T=%s E=%s", lexJoinOr(toks, ";"), lexJoinOr(es, ","))
 }
 
-// litShape lexes "option x = <lit>;" and says whether the lexer sees exactly
+// lexLitShape lexes "option x = <lit>;" and says whether the lexer sees exactly
 // [option x = LITERAL ;] without errors ("lit"), reports an error ("err"), or something else.
-func litShape(file []byte) (shape string, lit parser.VerifTok) {
-	c := &collector{lenient: true}
+func lexLitShape(file []byte) (shape string, lit parser.VerifTok) {
+	c := &lexCollector{lenient: true}
 	res := parser.VerifLex(file, c.handler())
 	if len(c.errs) > 0 {
 		return "err", lit
@@ -676,11 +676,11 @@ func litShape(file []byte) (shape string, lit parser.VerifTok) {
 	return "lit", l
 }
 
-// optAnswer: the literal as the value of a file option, through parser.Parse and ResultFromAST.
-func optAnswer(lit []byte) (ans string) {
-	defer catchPanic(&ans)
+// lexOptAnswer: the literal as the value of a file option, through parser.Parse and ResultFromAST.
+func lexOptAnswer(lit []byte) (ans string) {
+	defer lexCatchPanic(&ans)
 	file := append(append([]byte("option x = "), lit...), ';')
-	shape, _ := litShape(file)
+	shape, _ := lexLitShape(file)
 	if shape == "other" {
 		return "unmodelled"
 	}
@@ -693,7 +693,7 @@ func optAnswer(lit []byte) (ans string) {
 		return "rejected-without-lexer-error"
 	}
 	if shape == "err" {
-		return "accepted-despite-lexer-error"
+		return "lexAccepted-despite-lexer-error"
 	}
 	res, err := parser.ResultFromAST(root, true, h)
 	if err != nil {
@@ -715,10 +715,10 @@ func optAnswer(lit []byte) (ans string) {
 	return "other-value"
 }
 
-// dfltAnswer: the literal as a field default, through the whole compiler.
-func dfltAnswer(lit []byte) (ans string) {
-	defer catchPanic(&ans)
-	shape, tok := litShape(append(append([]byte("option x = "), lit...), ';'))
+// lexDfltAnswer: the literal as a field default, through the whole compiler.
+func lexDfltAnswer(lit []byte) (ans string) {
+	defer lexCatchPanic(&ans)
+	shape, tok := lexLitShape(append(append([]byte("option x = "), lit...), ';'))
 	if shape == "other" || (shape == "lit" && tok.Kind == "f") {
 		return "unmodelled"
 	}
@@ -738,7 +738,7 @@ func dfltAnswer(lit []byte) (ans string) {
 		return "rejected-without-lexer-error"
 	}
 	if shape == "err" {
-		return "accepted-despite-lexer-error"
+		return "lexAccepted-despite-lexer-error"
 	}
 	res, ok := files[0].(linker.Result)
 	if !ok {
@@ -748,7 +748,7 @@ func dfltAnswer(lit []byte) (ans string) {
 	return "d:" + Hex([]byte(dv))
 }
 
-func (literalEngine) Exec(op string) string {
+func (lexLiteralEngine) Exec(op string) string {
 	w := strings.Fields(op)
 	if len(w) != 2 {
 		return "bad-op"
@@ -756,18 +756,18 @@ func (literalEngine) Exec(op string) string {
 	b := UnHex(w[1])
 	switch w[0] {
 	case "lit":
-		return litAnswer(b)
+		return lexLitAnswer(b)
 	case "opt":
-		return optAnswer(b)
+		return lexOptAnswer(b)
 	case "dflt":
-		return dfltAnswer(b)
+		return lexDfltAnswer(b)
 	}
 	return "bad-op"
 }
 
-func (literalEngine) Trivial(op, ans string) bool { return strings.HasSuffix(op, " -") }
+func (lexLiteralEngine) Trivial(op, ans string) bool { return strings.HasSuffix(op, " -") }
 
-func (literalEngine) Class(op, ans string) string {
+func (lexLiteralEngine) Class(op, ans string) string {
 	w := strings.Fields(op)
 	k := "num"
 	if b := UnHex(w[1]); len(b) > 0 && (b[0] == '"' || b[0] == '\'') {
@@ -777,17 +777,17 @@ func (literalEngine) Class(op, ans string) string {
 	case strings.HasPrefix(ans, "PANIC"):
 		return w[0] + ":" + k + ":panic"
 	case strings.Contains(ans, "E=-") || strings.HasPrefix(ans, "s:") || strings.HasPrefix(ans, "i:") || strings.HasPrefix(ans, "f:") || strings.HasPrefix(ans, "d:"):
-		return w[0] + ":" + k + ":accepted"
+		return w[0] + ":" + k + ":lexAccepted"
 	}
 	return w[0] + ":" + k + ":other"
 }
 
-var escAlphabet = []string{"\\", "x", "X", "u", "U", "0", "1", "3", "4", "7", "8", "9", "a", "f", "F", "g", "n", "\"", "'", "?", "+", "-", "_", " ",
+var lexEscAlphabet = []string{"\\", "x", "X", "u", "U", "0", "1", "3", "4", "7", "8", "9", "a", "f", "F", "g", "n", "\"", "'", "?", "+", "-", "_", " ",
 	"\n", "\x00", "é", "\xff", "\x80", "z"}
 
-var numAlphabet = []byte("0179afxXeE.+-_")
+var lexNumAlphabet = []byte("0179afxXeE.+-_")
 
-func (literalEngine) Gen(r *Rand, tier string) [][]string {
+func (lexLiteralEngine) Gen(r *Rand, tier string) [][]string {
 	var ops []string
 	seen := map[string]bool{}
 	add := func(k string, b []byte) {
@@ -811,7 +811,7 @@ func (literalEngine) Gen(r *Rand, tier string) [][]string {
 		if d == 0 {
 			return
 		}
-		for _, c := range escAlphabet {
+		for _, c := range lexEscAlphabet {
 			p := prefix + c
 			all([]byte("\"\\" + p + "\""))
 			if d == n {
@@ -864,7 +864,7 @@ func (literalEngine) Gen(r *Rand, tier string) [][]string {
 		if d == 0 {
 			return
 		}
-		for _, c := range numAlphabet {
+		for _, c := range lexNumAlphabet {
 			p := append(append([]byte{}, prefix...), c)
 			if p[0] == '.' || (p[0] >= '0' && p[0] <= '9') {
 				all(p)
@@ -899,7 +899,7 @@ func (literalEngine) Gen(r *Rand, tier string) [][]string {
 			if r.Chance(1, 2) {
 				b = append(b, '\\')
 			}
-			b = append(b, Pick(r, escAlphabet)...)
+			b = append(b, Pick(r, lexEscAlphabet)...)
 		}
 		if !r.Chance(1, 10) {
 			b = append(b, q)
@@ -938,7 +938,7 @@ func (literalEngine) Gen(r *Rand, tier string) [][]string {
 			}
 		default:
 			for j, k := 0, 1+r.Intn(8); j < k; j++ {
-				nb = append(nb, Pick(r, numAlphabet))
+				nb = append(nb, Pick(r, lexNumAlphabet))
 			}
 			if nb[0] != '.' && (nb[0] < '0' || nb[0] > '9') {
 				nb = append([]byte{'0'}, nb...)
@@ -949,13 +949,13 @@ func (literalEngine) Gen(r *Rand, tier string) [][]string {
 			add("dflt", nb)
 		}
 	}
-	return singleOpCases(ops)
+	return lexSingleOpCases(ops)
 }
 
-// errorShapes: inputs that drive the parser through each of its error productions
+// lexErrorShapes: inputs that drive the parser through each of its error productions
 // ("expecting ';'", "unexpected '.'", "unexpected ','", valueless / empty compact options, bad
 // negative identifiers) in every declaration kind that can carry them.
-func errorShapes() []string {
+func lexErrorShapes() []string {
 	return []string{
 		"syntax = \"proto3\"", "syntax = \"proto3\" message M {}", "package a.b", "package a.b message M {}", "import \"x\"", "import \"x\" message M {}",
 		"option a = 1", "option a = 1 message M {}", "package a.;", "package .a;", "package a..b;", "option a. = 1;", "option (a.). b = 1;",
@@ -983,7 +983,7 @@ func init() { Register("lextotal", func() Engine { return lextotalEngine{} }) }
 func (lextotalEngine) Name() string { return "lextotal" }
 func (lextotalEngine) Reset()       {}
 
-type totObs struct {
+type lexTotObs struct {
 	panicMsg string
 	astNil   bool
 	err      bool
@@ -991,9 +991,9 @@ type totObs struct {
 	resPanic string
 }
 
-// observeTotal runs parser.Parse and ResultFromAST under recover.
-func observeTotal(data []byte, lenient bool) (o totObs) {
-	c := &collector{lenient: lenient}
+// lexObserveTotal runs parser.Parse and ResultFromAST under recover.
+func lexObserveTotal(data []byte, lenient bool) (o lexTotObs) {
+	c := &lexCollector{lenient: lenient}
 	var root *ast.FileNode
 	func() {
 		defer func() {
@@ -1016,33 +1016,33 @@ func observeTotal(data []byte, lenient bool) (o totObs) {
 				o.resPanic = Canon(fmt.Sprint(r))
 			}
 		}()
-		c2 := &collector{lenient: true}
+		c2 := &lexCollector{lenient: true}
 		_, _ = parser.ResultFromAST(root, true, c2.handler())
 	}()
 	return o
 }
 
-// obsOffsets: "offset:class" of every reported error, in order.
-func obsOffsets(o totObs) string {
+// lexObsOffsets: "offset:class" of every reported error, in order.
+func lexObsOffsets(o lexTotObs) string {
 	var xs []string
 	for _, e := range o.errs {
 		xs = append(xs, strconv.Itoa(e.off)+":"+e.cls)
 	}
-	return joinOr(xs, ",")
+	return lexJoinOr(xs, ",")
 }
 
 // Exec: "tot <mode> <hex> <offset:class,...> <parse> <res>": offset and message class of the
 // reported errors, whether parser.Parse panicked and the outcome of ResultFromAST were observed when
 // the case was generated (the LALR automaton, the AST constructors and result.go are not
 // modelled); they are re-observed here and must match.
-func resOutcome(o totObs) string {
+func lexResOutcome(o lexTotObs) string {
 	if o.resPanic != "" {
 		return "PANIC:" + strings.ReplaceAll(o.resPanic, " ", "_")
 	}
 	return "ok"
 }
 
-func parseOutcome(o totObs) string {
+func lexParseOutcome(o lexTotObs) string {
 	if o.panicMsg != "" {
 		return "PANIC:" + strings.ReplaceAll(o.panicMsg, " ", "_")
 	}
@@ -1058,14 +1058,14 @@ func (lextotalEngine) Exec(op string) string {
 	if !ok {
 		return "bad-op"
 	}
-	o := observeTotal(UnHex(w[2]), lenient)
-	if got := obsOffsets(o); got != w[3] {
+	o := lexObserveTotal(UnHex(w[2]), lenient)
+	if got := lexObsOffsets(o); got != w[3] {
 		return "obs-mismatch " + got
 	}
-	if got := parseOutcome(o); got != w[4] {
+	if got := lexParseOutcome(o); got != w[4] {
 		return "obs-mismatch parse=" + got
 	}
-	if got := resOutcome(o); got != w[5] {
+	if got := lexResOutcome(o); got != w[5] {
 		return "obs-mismatch res=" + got
 	}
 	if o.panicMsg != "" {
@@ -1082,7 +1082,7 @@ func (lextotalEngine) Exec(op string) string {
 	if o.err {
 		e = "1"
 	}
-	return fmt.Sprintf("ast=%s err=%s rep=%d pos=%s res=%s", a, e, len(o.errs), joinOr(ps, ","), resOutcome(o))
+	return fmt.Sprintf("ast=%s err=%s rep=%d pos=%s res=%s", a, e, len(o.errs), lexJoinOr(ps, ","), lexResOutcome(o))
 }
 
 func (lextotalEngine) Trivial(op, ans string) bool { return strings.Contains(op, " - - ") }
@@ -1092,19 +1092,19 @@ func (lextotalEngine) Class(op, ans string) string {
 	case strings.HasPrefix(ans, "PANIC"):
 		return "tot:panic"
 	case strings.Contains(ans, "err=0"):
-		return "tot:accepted"
+		return "tot:lexAccepted"
 	}
 	return "tot:rejected"
 }
 
 func (lextotalEngine) Gen(r *Rand, tier string) [][]string {
-	g := newSrcGen(r)
+	g := lexNewSrcGen(r)
 	var ops []string
 	seen := map[string]bool{}
 	add := func(mode string, b []byte) {
 		lenient := mode == "l"
-		o := observeTotal(b, lenient)
-		op := "tot " + mode + " " + Hex(b) + " " + obsOffsets(o) + " " + parseOutcome(o) + " " + resOutcome(o)
+		o := lexObserveTotal(b, lenient)
+		op := "tot " + mode + " " + Hex(b) + " " + lexObsOffsets(o) + " " + lexParseOutcome(o) + " " + lexResOutcome(o)
 		if !seen[op] {
 			seen[op] = true
 			ops = append(ops, op)
@@ -1135,12 +1135,12 @@ func (lextotalEngine) Gen(r *Rand, tier string) [][]string {
 		}
 	}
 	rec(nil, n)
-	for _, s := range commentShapes() {
+	for _, s := range lexCommentShapes() {
 		add("l", []byte(s))
 		add("s", []byte(s))
 	}
 	// every error-recovery production of the grammar (partial ASTs with a lenient reporter)
-	for _, sh := range errorShapes() {
+	for _, sh := range lexErrorShapes() {
 		add("l", []byte(sh))
 		add("s", []byte(sh))
 		add("l", g.mutate([]byte(sh)))
@@ -1178,5 +1178,5 @@ func (lextotalEngine) Gen(r *Rand, tier string) [][]string {
 			add("l", b[:r.Intn(len(b)+1)])
 		}
 	}
-	return singleOpCases(ops)
+	return lexSingleOpCases(ops)
 }
